@@ -186,3 +186,40 @@ pub fn leap_model(y: &tyme4rs::tyme::lunar::LunarYear) -> usize {
 pub fn from_ym_new(year: isize, month: isize) -> tyme4rs::tyme::lunar::LunarMonth {
   tyme4rs::tyme::lunar::LunarMonth::new(year, month).unwrap()
 }
+
+// ---- SolarDay::next by walking the reference calendar ----------------------------------------------------------
+/// Stand-in for `<SolarDay as Tyme>::next(n)` above the civil kernel: n applications of the reference calendar's
+/// successor / predecessor.  01.c + 01.d + 01.g prove that the real function (a float round trip through the day
+/// count) returns exactly this date.  Targets outside 0001..9999 are assumed away (the real one panics there).
+#[cfg(kani)]
+pub fn sd_next_walk(s: &SolarDay, n: isize) -> SolarDay {
+  let (mut y, mut m, mut d) = (s.get_year() as i64, s.get_month() as i64, s.get_day() as i64);
+  let mut k = n;
+  while k > 0 {
+    kani::assume(!(y == 9999 && m == 12 && d == 31));
+    let t = refcal::succ(y, m, d);
+    y = t.0; m = t.1; d = t.2;
+    k -= 1;
+  }
+  while k < 0 {
+    kani::assume(!(y == 1 && m == 1 && d == 1));
+    let t = refcal::pred(y, m, d);
+    y = t.0; m = t.1; d = t.2;
+    k += 1;
+  }
+  SolarDay::from_ymd(y as isize, m as usize, d as usize)
+}
+
+/// `SolarDay::next` as used by month listings: from the first of a month, n < (days in the month) steps stay in
+/// the month and land on the (n+1)-th existing date.  Justified by lemma 13.L (one `succ` step moves from position
+/// pos to pos+1 inside a month) by induction on n; any other call is reported as a failed check.
+#[cfg(kani)]
+pub fn sd_next_in_month(s: &SolarDay, n: isize) -> SolarDay {
+  let (y, m, d) = (s.get_year() as i64, s.get_month() as i64, s.get_day() as i64);
+  if d == 1 && n >= 0 && (n as i64) < refcal::days_in_month(y, m) {
+    return SolarDay::from_ymd(y as isize, m as usize, refcal::day_at_pos(y, m, n as i64 + 1) as usize);
+  }
+  // any other use is outside this stand-in's contract: flagged, never silently assumed away
+  assert!(false, "SolarDay::next used outside the month-listing contract (not from the 1st, or beyond the month)");
+  SolarDay::from_ymd(y as isize, m as usize, d as usize)
+}
